@@ -29,7 +29,7 @@ func checkC05(c *Ctx, r *Report) {
 	checkQRInterleave(c, r)
 	checkQRZigZag(c, r)
 	checkDMDeinterleave(c, r)
-	r.Note("not decided: Reed-Solomon correction itself (C04 decides its configuration), de-interleaving of codewords into blocks (loop-carried index arithmetic in DataBlock_GetDataBlocks / DataBlocks_getDataBlocks)")
+	r.Note("Reed-Solomon correction itself is decided under C04 on complete small domains (S-RSWHOLE); not decided: correction for the real block sizes (the same text, larger k and r), detection and sampling of damaged images")
 }
 
 func onesDiff(a, b int64) int { return bits.OnesCount64(uint64(a ^ b)) }
